@@ -1,4 +1,26 @@
 # run plan + floors for C03 (loaded by checkcfg.py; helpers e1/e2 are in scope)
+_FAMS = ["ipv4", "ipv6", "ipv4-mc", "ipv6-mc", "ipv4-mpls", "ipv6-mpls", "ls", "ipv4-mup", "ipv6-mup", "ipv4-vpn",
+         "ipv6-vpn", "ipv4-flowspec", "ipv6-flowspec", "ipv4-flowspec-vpn", "ipv6-flowspec-vpn", "ipv4-srpolicy",
+         "ipv6-srpolicy", "l2vpn-evpn", "rtc"]
+_COUNTERS = {
+    # corpus: >= 24 negotiated codecs, seeds from both the repo encoder and hand-written templates
+    "max:codecs": 24, "seed:from-encoder": 80, "seed:from-template": 80, "baseline:accepted": 150,
+    "seed:rtr": 15, "seed:bfd": 2,
+    # every mutation class reached
+    "mut:len-field": 15000, "mut:len-pair": 20000, "mut:truncate": 30000, "mut:type-sweep": 20000,
+    "mut:region-boundary": 40000, "mut:region-lead-sweep": 40000, "mut:region-window": 20000,
+    "mut:attr-dup-reorder": 3000, "mut:extend": 1500, "mut:pad-to": 1000,
+    "rand:splice": 8000, "rand:stream": 8000, "rand:framed-nlri-havoc": 20000, "rand:framed-attr-havoc": 8000,
+    "rand:random-bytes": 3000,
+    # both delivery modes and the clauses that decide
+    "delivery:fragmented": 300000, "fragcmp:compared": 300000,
+    "bgp:message": 400000, "bgp:error": 300000, "bgp:need-more": 1000000, "attr-value-decoder-calls": 80000,
+    "rtr:message": 40000, "rtr:need-more": 300000, "mut-rtr:length": 400, "mut-rtr:type-sweep": 5000,
+    "mut-rtr:truncate": 300, "bfd:message": 4000, "bfd:error": 5000, "mut-bfd:length": 400,
+}
+# the per-family NLRI decoder of every family returned entries
+_COUNTERS.update({"decoded-nlri:" + f: 5000 for f in _FAMS})
+
 CFG = dict(
     level="exploration",
     rule="case = one byte string delivered to one decoder (PeerCodec::try_parse + validate_message, RtrCodec::decode, "
@@ -9,17 +31,17 @@ CFG = dict(
               "progress: a returned message consumed a whole number of frames; bounded decode loop, "
               "8 zero-consumption successes in a row = no-progress",
               "no-stall: a complete frame by the protocol's own length field is never answered with need-more; "
-              "a length field below the header size is rejected, not waited on",
+              "a length field below the header size is rejected, not waited on or accepted",
               "fragment-independence: fragmented and whole delivery give the same message sequence and end state",
               "attribute value decoders applied to received bytes later (tunnel_encap, prefix_sid, ls attr): no-panic"],
     assumptions=["RTR has no protocol maximum PDU size: waiting for a huge declared length is not judged",
                  "BFD reception checks of RFC 5880 6.8.6 beyond framing (detect mult 0, discriminator 0, A/M bits) are counted, not judged",
                  "acceptance of valid frames is not part of the statement: seeds the decoder rejects are listed in "
                  "coverage.baseline_not_accepted, not judged",
+                 "a NOTIFICATION whose data would exceed the maximum message size is counted (C04 territory), not judged",
                  "a decoder call that never returns is a watchdog exit (inconclusive), never a violation; "
                  "only deterministic step bounds in the harness' own loop are violations"],
-    floor=dict(evaluations=1000000, nontrivial=300000,
-               counters={}),
+    floor=dict(evaluations=800000, nontrivial=40000, counters=_COUNTERS),
     quick=[e1("q", "c03", "debug", 4, 40, nshards=4),
            e1("q", "c03", "release", 4, 40, nshards=4)],
     thorough=[e1("sys", "c03", "debug", 8, 240, nshards=8, part="bgp-systematic"),
@@ -27,5 +49,7 @@ CFG = dict(
               e1("rnd", "c03", "debug", 4, 120, nshards=4, part="bgp-random"),
               e1("rnd", "c03", "release", 4, 120, nshards=4, part="bgp-random"),
               e1("rtrbfd", "c03", "debug", 1, 120, part="rtr,bfd"),
-              e1("rtrbfd", "c03", "release", 1, 120, part="rtr,bfd")],
+              e1("rtrbfd", "c03", "release", 1, 120, part="rtr,bfd"),
+              e1("asan", "c03", "release", 4, 150, flavor="asan", nshards=4, scale=0.25),
+              e1("miri", "c03", "debug", 8, 400, flavor="miri", nshards=8, scale=0.0002)],
 )
